@@ -4,3 +4,4 @@ import XoGen.TieChunk
 import XoGen.TieIndex
 import XoGen.TieOrder
 import XoGen.TieBuf
+import XoGen.TieGrow
